@@ -105,8 +105,12 @@ def check_csv(ctx, case):
         e[1].add("v%d" % i)
     shared = len(exp) < len(rows)
     ctx.case(case, nontrivial=shared and (sel is not None or has_id or has_w))
+    kw0 = {k: (list(v) if isinstance(v, list) else v) for k, v in kw.items()}
     o = observe(load_csv, path, **kw)
     ctx.count("csv_loaded")
+    if kw != kw0:
+        ctx.fail("load_csv changed an argument object it was given (rank_cols list)", case, {"before": kw0, "after": kw})
+        return
     if sel is not None:
         ctx.count("csv_with_rank_cols")
     if has_id:
@@ -144,6 +148,13 @@ def check_csv(ctx, case):
     tot = sum((e[0] for e in exp.values()), F(0))
     if p.total_ballot_wt != tot:
         ctx.fail("load_csv: total weight differs from the row count / weight sum", case, {})
+        return
+    # the same file and the same argument objects once more: same profile
+    o2 = observe(load_csv, path, **kw)
+    ctx.count("csv_loaded_again")
+    if not o2.ok or canon.multiset(o2.value.ballots) != canon.multiset(p.ballots) or tuple(o2.value.candidates) != tuple(p.candidates) \
+            or {b.ranking: b.voter_set for b in o2.value.ballots} != {b.ranking: b.voter_set for b in p.ballots}:
+        ctx.fail("load_csv: loading the same file again with the same arguments gives another profile", case, {"second": repr(o2)[:200]})
 
 
 def check_malformed(ctx, case):
@@ -263,7 +274,11 @@ def check_to_csv(ctx, case):
     spec = case["profile"]
     prof = canon.build_profile(spec)
     path = workfile("out.csv")
+    snap0 = [(b.ranking, dict(b.scores) if b.scores else None, b.weight) for b in prof.ballots]
     o = observe(prof.to_csv, path)
+    if [(b.ranking, dict(b.scores) if b.scores else None, b.weight) for b in prof.ballots] != snap0:
+        ctx.fail("to_csv changed the profile it wrote", case, {})
+        return
     ctx.count("to_csv_checked")
     ctx.case(case, nontrivial=len(spec["ballots"]) >= 2)
     if not o.ok:
